@@ -16,6 +16,15 @@ def gauss_logpdf(x, mu, Th, logdet_term, n):
     return (logdet_term - quad - n * LOG2PI) / 2
 
 
+TOL = z3.Q(1, 2 ** 40)
+
+
+def same_density(a, b):
+    """Equality up to 2^-40: the normalising constant (n/2) ln 2pi is folded by Python in binary64
+    and the order in which it is folded (n*ln(2pi)/2, (n/2)*ln(2pi), ...) moves its last bit."""
+    return z3.And(a - b <= TOL, b - a <= TOL)
+
+
 class C05(Check):
     pid = 'C05'
     validate = True
@@ -43,15 +52,17 @@ class C05(Check):
         if tier == 'quick':
             return {'point formula (N,W)': [(1, 1), (2, 1), (1, 2), (3, 1)], 'table': 'T<=3,K<=2,n<=2',
                     'finite': 'Theta=t*I_n n in {1,40,100}'}
-        return {'point formula (N,W)': [(1, 1), (2, 1), (1, 2), (3, 1), (1, 3), (2, 2), (4, 1), (1, 4), (5, 1), (1, 5), (2, 3), (3, 2)],
-                'table': 'T<=3,K<=3,n<=3', 'finite': 'Theta=t*I_n n in {1,40,100,200}'}
+        return {'point formula (N,W)': [(1, 1), (2, 1), (1, 2), (3, 1), (1, 3), (2, 2), (4, 1), (1, 4), (5, 1), (1, 5), (2, 3), (3, 2),
+                                        (7, 1), (1, 7), (2, 4), (4, 2), (3, 3), (1, 9), (2, 5), (5, 2), (3, 4), (4, 3)],
+                'table': 'T<=4,K<=4,n<=4', 'finite': 'Theta=t*I_n n in {1,40,100,200}'}
 
     def configs(self, tier):
         b = self.bounds(tier)
         cfgs = [Config('point_N%d_W%d' % nw, self.point, {'N': nw[0], 'W': nw[1]}, witness_every=1, nonlinear=True)
                 for nw in b['point formula (N,W)']]
         for (T, K, N, W) in ([(2, 2, 1, 1), (3, 2, 2, 1), (2, 2, 1, 2)] if tier == 'quick' else
-                             [(2, 2, 1, 1), (3, 2, 2, 1), (2, 2, 1, 2), (3, 3, 1, 2), (3, 3, 3, 1), (2, 3, 1, 3)]):
+                             [(2, 2, 1, 1), (3, 2, 2, 1), (2, 2, 1, 2), (3, 3, 1, 2), (3, 3, 3, 1), (2, 3, 1, 3), (4, 2, 2, 2), (3, 4, 1, 2),
+                              (4, 3, 3, 1), (2, 2, 1, 4)]):
             cfgs.append(Config('table_T%d_K%d_N%d_W%d' % (T, K, N, W), self.table, {'T': T, 'K': K, 'N': N, 'W': W},
                                witness_every=1, nonlinear=True))
         for n in ([1, 40, 100] if tier == 'quick' else [1, 40, 100, 200]):
@@ -71,12 +82,12 @@ class C05(Check):
             return
         c.notes.update({'N': N, 'W': W, 'kind': 'point'})
         c.outputs['ll'] = res
-        c.prove('point_density_formula', R(res) == gauss_logpdf(x, mu, Th, R(ld), n))
+        c.prove('point_density_formula', same_density(R(res), gauss_logpdf(x, mu, Th, R(ld), n)))
         cl = Rp.model_state.ClusterParameters(stacked_data_mean=mu, inverse_covariance=Th, log_determinant=ld,
                                               train_inverse=np.zeros((n, n)))
         ok, res2 = guarded(c, 'point_wrapper_uses_cluster_fields', Rp.likelihood.point_log_likelihood, x, cl, W, N)
         if ok:
-            c.prove('point_wrapper_uses_cluster_fields', R(res2) == gauss_logpdf(x, mu, Th, R(ld), n))
+            c.prove('point_wrapper_uses_cluster_fields', same_density(R(res2), gauss_logpdf(x, mu, Th, R(ld), n)))
 
     def table(self, c, T, K, N, W):
         Rp = self.R
@@ -96,8 +107,8 @@ class C05(Check):
         if f[0]:
             for p in range(T):
                 for k in range(K):
-                    f.append(R(tab[p, k]) == gauss_logpdf(data[p], st.clusters[k].stacked_data_mean,
-                                                          st.clusters[k].train_inverse, R(lds[k]), n))
+                    f.append(same_density(R(tab[p, k]), gauss_logpdf(data[p], st.clusters[k].stacked_data_mean,
+                                                                     st.clusters[k].train_inverse, R(lds[k]), n)))
         c.prove('table_entry_is_own_point_and_cluster', conj(f))
         # public entry: stale caches must not be used
         for k, cl in enumerate(st.clusters):
@@ -114,8 +125,8 @@ class C05(Check):
             for p in range(T):
                 for k in range(K):
                     Th = st.clusters[k].train_inverse
-                    g.append(R(tab2[p, k]) == gauss_logpdf(data[p], st.clusters[k].stacked_data_mean, Th,
-                                                           core.log_term(R(stubs.det_exact(Th))), n))
+                    g.append(same_density(R(tab2[p, k]), gauss_logpdf(data[p], st.clusters[k].stacked_data_mean, Th,
+                                                                      core.log_term(R(stubs.det_exact(Th))), n)))
         c.prove('table_uses_current_mrf_mean_logdet', conj(g))
 
     def finite(self, c, n):
